@@ -189,6 +189,8 @@ def run_check(pid, modnames, tier, seed, jobs, only=None, verbose=False):
         c["detail"] = detail
         if not ok:
             not_reproduced.append({"case": c["case"], "key": c.get("key"), "detail": detail[:300]})
+            if verbose:
+                print(f"  candidate not reproduced: case={c['case']} key={c.get('key')} spec={json.dumps(c['replay'], default=str)[:600]} :: {detail[:300]}")
             continue
         kf = c.get("known_id")
         if kf and kf in active:
